@@ -549,6 +549,43 @@ shadow main { assert true }
 """ % {"id": mid, "n": n}
 
 
+def _p_nest(mid, n):
+    # a heap value nested n levels deep (each node holds the previous one in its `kids` array), built in a loop and dropped
+    # at the end: nothing recurses in nanolang, but releasing the value recurses once per level inside the VM (C stack of
+    # whichever thread runs the session)
+    return """
+struct Node {
+    val: int,
+    kids: array<Node>
+}
+let mut BUILT: int = 0
+fn build(n: int) -> Node {
+    let empty: array<Node> = []
+    let mut cur: Node = Node { val: 0, kids: empty }
+    let mut i: int = 1
+    while (< i n) {
+        let mut ks: array<Node> = []
+        set ks (array_push ks cur)
+        set cur (Node { val: i, kids: ks })
+        set BUILT (+ BUILT 1)
+        if (== (%% i %(step)d) 0) {
+            (println (+ "%(id)s:depth " (int_to_string i)))
+        } else {}
+        set i (+ i 1)
+    }
+    return cur
+}
+shadow build { assert true }
+fn main() -> int {
+    let top: Node = (build %(n)d)
+    (println (+ "%(id)s:top " (int_to_string top.val)))
+    (println (+ "%(id)s:built " (int_to_string BUILT)))
+    return 0
+}
+shadow main { assert true }
+""" % {"id": mid, "n": n, "step": max(1, n // 180)}
+
+
 # (shape, quick-n, traits)   traits: big = >= 64 KiB of output, err = ends in a runtime error, glob = mutable globals
 SHAPES = [
     (_p_counter, 420, {"glob"}), (_p_strgrow, 300, {"glob"}), (_p_fib, 260, set()), (_p_collatz, 330, {"glob"}),
@@ -556,7 +593,7 @@ SHAPES = [
     (_p_assert_end, 240, {"glob", "err"}), (_p_oob_end, 200, {"err"}), (_p_evenodd, 210, set()), (_p_gcd, 230, set()),
     (_p_reverse, 270, {"glob"}), (_p_sort, 250, {"glob"}), (_p_depth, 200, {"glob", "err"}),
     (_p_longlines, 420, {"big"}), (_p_assert_nested, 310, {"glob", "err"}), (_p_triangle, 400, set()),
-    (_p_ret, 205, {"glob"}),
+    (_p_ret, 205, {"glob"}), (_p_nest, 3000, {"glob", "deep"}),
 ]
 
 
@@ -1054,6 +1091,8 @@ def _run(ctx, fl, sc):
             picks = [pool[i % len(pool)] for i in range(k)]              # as many different modules as possible
         if k >= 8 and not any("err" in m.traits for m in picks):
             picks[0] = rng.choice([m for m in mods if "err" in m.traits])
+        if k >= 8 and not any("deep" in m.traits for m in picks):
+            picks[2] = rng.choice([m for m in mods if "deep" in m.traits])
         if k >= 8 and not any("big" in m.traits for m in picks):
             picks[1] = rng.choice([m for m in mods if "big" in m.traits])
         n_bin = 0 if k == 2 and rno % 2 == 0 else max(1, min(12, k // 4))
@@ -1111,6 +1150,7 @@ def _run(ctx, fl, sc):
         "modules_ending_in_runtime_error": sum(1 for m in mods if "err" in m.traits),
         "modules_with_mutable_globals": sum(1 for m in mods if "glob" in m.traits),
         "modules_64KiB_output": sum(1 for m in mods if "big" in m.traits),
+        "modules_deeply_nested_heap_value": {m.mid: 3000 for m in mods if "deep" in m.traits},
         "expected_output_bytes_per_module": {m.mid: len(m.out) for m in mods[:len(SHAPES)]},
         "max_concurrency_status": conc, "max_active_clients_reported": st.max_status_active,
         "max_client_side_overlap": st.max_client_overlap, "status_samples": st.status_samples,
